@@ -2,7 +2,7 @@ import ClusterVerif.Lemmas.C11
 /-!
 C11 — property theorems.
 
-`Gen.routes`, `Gen.chain`, `Gen.handlerInfo` … are regenerated from api/rest/restapi.go on every run;
+`Gen.routes`, `(Gen.chain false)`, `Gen.handlerInfo` … are regenerated from api/rest/restapi.go on every run;
 the `decide` theorems below re-check them against the frozen expectation of the Spec.
 -/
 namespace CV.C11
@@ -61,15 +61,16 @@ theorem router_setup :
 
 /-- the authentication wrapper is outermost: only pass-through layers (access log, tracing) sit outside
     it, and the CORS layer and the router are inside it -/
-def authOutermost (chain : List String) : Bool :=
+def authOutermost (chain : List Layer) : Bool :=
   (chain.takeWhile (· != "basicAuth")).all (fun l => l == "logging" || l == "ochttp") &&
   chain.contains "basicAuth"
 
-theorem auth_outermost : authOutermost Gen.chain = true ∧ authOutermost Gen.chainTracing = true := by decide
+/-- … whatever cfg.Tracing is (the chain is extracted per value of cfg.Tracing) -/
+theorem auth_outermost : ∀ tracing : Bool, authOutermost (Gen.chain tracing) = true := by decide
 
 theorem chain_shape :
-    Gen.chain = ["logging", "basicAuth", "cors", "router"] ∧
-    Gen.chainTracing = ["logging", "ochttp", "basicAuth", "cors", "router"] := by decide
+    (Gen.chain false) = ["logging", "basicAuth", "cors", "router"] ∧
+    (Gen.chain true) = ["logging", "ochttp", "basicAuth", "cors", "router"] := by decide
 
 /-! ### auth_gate: for every chain with the wrapper outermost, every table, every request -/
 
@@ -113,9 +114,9 @@ theorem auth_gate (chain : List String) (t : List Route) (r : Req)
   split <;> simp [auth_gate_serve chain t r ho hna]
 
 /-- … in particular for the chain and the table of this tree, with or without tracing -/
-theorem auth_gate_gen (r : Req) (hc : r.creds = true) (ha : r.auth ≠ .right) :
-    (handle Gen.chain Gen.routes r).ops = [] ∧ (handle Gen.chainTracing Gen.routes r).ops = [] :=
-  ⟨auth_gate _ _ r auth_outermost.1 hc ha, auth_gate _ _ r auth_outermost.2 hc ha⟩
+theorem auth_gate_gen (tracing : Bool) (r : Req) (hc : r.creds = true) (ha : r.auth ≠ .right) :
+    (handle (Gen.chain tracing) Gen.routes r).ops = [] :=
+  auth_gate _ _ r (auth_outermost tracing) hc ha
 
 /-! ### the decision of `basicAuthHandler` (shape extracted into `Gen.authLogic`) -/
 
@@ -165,10 +166,10 @@ theorem auth_class_agrees (creds : List (String × String)) (h : AuthHeader) :
   rw [hv]
   cases h <;> rfl
 /-- the gate in concrete terms: any configured pairs, any header that is not one of them, any path, method, table -/
-theorem auth_gate_concrete (creds : List (String × String)) (hd : AuthHeader) (t : List Route) (r : Req)
+theorem auth_gate_concrete (tracing : Bool) (creds : List (String × String)) (hd : AuthHeader) (t : List Route) (r : Req)
     (hc : r.creds = true) (ha : r.auth = authClass Gen.authLogic creds hd) (hv : validCreds creds hd = false) :
-    (handle Gen.chain t r).ops = [] := by
-  refine auth_gate Gen.chain t r auth_outermost.1 hc ?_
+    (handle (Gen.chain tracing) t r).ops = [] := by
+  refine auth_gate (Gen.chain tracing) t r (auth_outermost tracing) hc ?_
   rw [ha, auth_class_agrees]
   unfold specAuthClass
   rw [hv]
@@ -180,7 +181,7 @@ theorem auth_gate_concrete (creds : List (String × String)) (hd : AuthHeader) (
     `Gen.routes`, by `routes_aligned`) and **every request, with no exception**, the model's response
     satisfies every clause of the property (the former hypotheses ¬K07, ¬K20, ¬K21 are gone with the repairs). -/
 theorem model_holds_table (t : List Route) (hal : aligned t expectations = true) (r : Req) :
-    holds r (handle Gen.chain t r) = true := by
+    holds r (handle (Gen.chain false) t r) = true := by
   cases ha : authorized r with
   | false => rw [handle_unauthorized t r ha]; exact holds_unauthorized ha
   | true =>
@@ -198,13 +199,13 @@ theorem model_holds_table (t : List Route) (hal : aligned t expectations = true)
 
 /-- … for the route table and the handler chain of this tree -/
 theorem model_holds (r : Req) :
-    holds r (handle Gen.chain Gen.routes r) = true :=
+    holds r (handle (Gen.chain false) Gen.routes r) = true :=
   model_holds_table Gen.routes routes_aligned r
 
-/-- … and with tracing enabled (the ochttp layer passes requests through) -/
-theorem model_holds_tracing (r : Req) :
-    holds r (handle Gen.chainTracing Gen.routes r) = true := by
-  unfold handle; rw [serve_genTracing]; exact model_holds r
+/-- … and whatever cfg.Tracing is (the ochttp layer passes requests through, outside the credential check) -/
+theorem model_holds_tracing (tracing : Bool) (r : Req) :
+    holds r (handle (Gen.chain tracing) Gen.routes r) = true := by
+  rw [handle_any_tracing]; exact model_holds r
 
 /-! ### the clauses one by one, each with only the hypothesis it needs -/
 
@@ -213,7 +214,7 @@ theorem model_holds_tracing (r : Req) :
 theorem fail_closed (r : Req) (ha : authorized r = true) (hp : preflight r = false)
     (hc : nonCanonical r = false)
     (hbad : ∀ e ∈ expectations, addresses e r = true → isMalformed (verdict e r) = true) :
-    refused (handle Gen.chain Gen.routes r) = true := by
+    refused (handle (Gen.chain false) Gen.routes r) = true := by
   rcases router_cases Gen.routes routes_aligned r ha hp with
     ⟨hn, _, _, _⟩ | ⟨_, _, e, h, he, hadr, hsh, ho⟩ | ⟨_, ho⟩ | ⟨_, _, ho⟩
   · rw [hn] at hc; exact absurd hc (by decide)
@@ -233,7 +234,7 @@ theorem fail_closed (r : Req) (ha : authorized r = true) (hp : preflight r = fal
 theorem faithful (r : Req) (ha : authorized r = true) (hp : preflight r = false)
     (hc : nonCanonical r = false)
     (hgood : ∃ e ∈ expectations, addresses e r = true ∧ isMalformed (verdict e r) = false) :
-    ∃ e ∈ expectations, addresses e r = true ∧ conforms (verdict e r) (handle Gen.chain Gen.routes r) = true := by
+    ∃ e ∈ expectations, addresses e r = true ∧ conforms (verdict e r) (handle (Gen.chain false) Gen.routes r) = true := by
   have hne : expectations.filter (fun e => addresses e r) ≠ [] := by
     obtain ⟨e, he, hadr, _⟩ := hgood
     intro hnil
@@ -252,7 +253,7 @@ theorem faithful (r : Req) (ha : authorized r = true) (hp : preflight r = false)
     exceptions spelled out in `singleDocument`), unconditionally; in particular it holds for
     every combination of invalid parts and options (the F07 repair). -/
 theorem single_document (r : Req) :
-    singleDocument r (handle Gen.chain Gen.routes r) = true := by
+    singleDocument r (handle (Gen.chain false) Gen.routes r) = true := by
   cases ha : authorized r with
   | false => rw [handle_unauthorized _ r ha]; exact holds_single (holds_unauthorized ha)
   | true =>
@@ -277,11 +278,11 @@ theorem single_document (r : Req) :
 /-- Unconditionally (all requests, including the recorded deviations): never more than one JSON
     document, never more than one cluster operation. -/
 theorem at_most_one (r : Req) :
-    let o := handle Gen.chain Gen.routes r
+    let o := handle (Gen.chain false) Gen.routes r
     (o.body = .docs 0 ∨ o.body = .docs 1 ∨ o.body = .junk 0) ∧ o.ops.length ≤ 1 := by
   intro o
-  show (((handle Gen.chain Gen.routes r).body = .docs 0 ∨ (handle Gen.chain Gen.routes r).body = .docs 1 ∨
-      (handle Gen.chain Gen.routes r).body = .junk 0) ∧ (handle Gen.chain Gen.routes r).ops.length ≤ 1)
+  show (((handle (Gen.chain false) Gen.routes r).body = .docs 0 ∨ (handle (Gen.chain false) Gen.routes r).body = .docs 1 ∨
+      (handle (Gen.chain false) Gen.routes r).body = .junk 0) ∧ (handle (Gen.chain false) Gen.routes r).ops.length ≤ 1)
   cases ha : authorized r with
   | false => rw [handle_unauthorized _ r ha]; unfold headAdjust; split <;> simp
   | true =>
@@ -332,9 +333,10 @@ theorem filter_roundtrip (m : Nat) (hlt : m < 8192) (heven : m % 2 = 0) : widen 
     answer (an error with the server's status when the server answered an error; 401 and nothing
     performed without valid credentials; an invalid path is refused before anything is sent).
     Excluded: K01d (the answer carries origins). -/
-theorem client_server_inverse (cfg : CliCfg) (c : Call) (hwf : callWf c)
+theorem client_server_inverse (tracing : Bool) (cfg : CliCfg) (c : Call) (hwf : callWf c)
     (h1 : answerHasOrigins c = false) :
-    cliHolds cfg c (clientCall Gen.chain Gen.routes cfg c).1 (clientCall Gen.chain Gen.routes cfg c).2 = true := by
+    cliHolds cfg c (clientCall (Gen.chain tracing) Gen.routes cfg c).1 (clientCall (Gen.chain tracing) Gen.routes cfg c).2 = true := by
+  rw [clientCall_any_tracing]
   cases c with
   | id => exact client_id cfg
   | version => exact client_version cfg
@@ -381,14 +383,14 @@ def sC3 : Seg := ⟨"c3", some 3, some 1003⟩
 def o0 : Opts := (pinCid 0).opts
 theorem client_K01d_witness :
     cliHolds cfgOpen (.pin sC3 { o0 with origins := [1] })
-      (clientCall Gen.chain Gen.routes cfgOpen (.pin sC3 { o0 with origins := [1] })).1
-      (clientCall Gen.chain Gen.routes cfgOpen (.pin sC3 { o0 with origins := [1] })).2 = false := by decide
+      (clientCall (Gen.chain false) Gen.routes cfgOpen (.pin sC3 { o0 with origins := [1] })).1
+      (clientCall (Gen.chain false) Gen.routes cfgOpen (.pin sC3 { o0 with origins := [1] })).2 = false := by decide
 /-- (K23 repaired) a composite filter arrives unchanged -/
 theorem client_filter_arrives :
     widen 136 = 136 ∧ widen 14 = 14 ∧ widen 1536 = 1536 ∧ widen 530 = 530 ∧
     cliHolds cfgOpen (.statusAll 136 false)
-      (clientCall Gen.chain Gen.routes cfgOpen (.statusAll 136 false)).1
-      (clientCall Gen.chain Gen.routes cfgOpen (.statusAll 136 false)).2 = true := by decide
+      (clientCall (Gen.chain false) Gen.routes cfgOpen (.statusAll 136 false)).1
+      (clientCall (Gen.chain false) Gen.routes cfgOpen (.statusAll 136 false)).2 = true := by decide
 
 /-! ### the add endpoint (its model: `addHandle`) -/
 
@@ -453,7 +455,7 @@ theorem add_other_hash :
 /-! ### the full statement (server side) now holds of the model -/
 
 /-- the property of the server request path with no deviation excluded -/
-def C11_full : Prop := ∀ r : Req, holds r (handle Gen.chain Gen.routes r) = true
+def C11_full : Prop := ∀ (tracing : Bool) (r : Req), holds r (handle (Gen.chain tracing) Gen.routes r) = true
 
 def sPins : Seg := ⟨"pins", none, none⟩
 def sCid3 : Seg := ⟨"c3", some 3, some 1003⟩
@@ -469,23 +471,23 @@ def rWrongMethod : Req := { req0 with method := "PUT" }
 def rBadOpt (q : List (String × QV)) : Req := { req0 with query := q }
 
 theorem pin_direct_stays_direct :
-    holds rDirect (handle Gen.chain Gen.routes rDirect) = true ∧
-    (handle Gen.chain Gen.routes rDirect).ops.map (·.arg) =
+    holds rDirect (handle (Gen.chain false) Gen.routes rDirect) = true ∧
+    (handle (Gen.chain false) Gen.routes rDirect).ops.map (·.arg) =
       [.pin (pinWithOpts 3 { (pinCid 0).opts with mode := .direct }) .direct] := by decide
 /-- (K20 repaired) a wrong method on a known path is refused 405 with one JSON document -/
 theorem wrong_method_json :
-    handle Gen.chain Gen.routes rWrongMethod = refuse 405 ∧
-    holds rWrongMethod (handle Gen.chain Gen.routes rWrongMethod) = true := by decide
+    handle (Gen.chain false) Gen.routes rWrongMethod = refuse 405 ∧
+    holds rWrongMethod (handle (Gen.chain false) Gen.routes rWrongMethod) = true := by decide
 /-- (K21 repaired) every formerly tolerated shape is refused 400 with nothing performed, and the clauses hold -/
 theorem undecodable_options_refused :
     [ [("mode", QV.invalid)], [("user-allocations", .valid (.peers [some 1, none]))],
       [("replication", .valid (.int 2)), ("replication-min", .invalid)],
       [("expire-at", .valid (.exp (.future 1))), ("expire-in", .invalid)],
       [("replication-max", .garbled)] ].all (fun q =>
-        handle Gen.chain Gen.routes (rBadOpt q) == refuse 400 &&
-        holds (rBadOpt q) (handle Gen.chain Gen.routes (rBadOpt q))) = true := by decide
+        handle (Gen.chain false) Gen.routes (rBadOpt q) == refuse 400 &&
+        holds (rBadOpt q) (handle (Gen.chain false) Gen.routes (rBadOpt q))) = true := by decide
 
-theorem C11_full_holds : C11_full := fun r => model_holds r
+theorem C11_full_holds : C11_full := fun tracing r => model_holds_tracing tracing r
 
 /-! ### concrete non-trivial inputs that meet the hypotheses -/
 
@@ -499,16 +501,16 @@ def rPin : Req :=
       md := [(3, 1), (1, 2), (3, 9), (0, 7)] }
 
 example :
-    (handle Gen.chain Gen.routes rPin).status = 200 ∧
-    (handle Gen.chain Gen.routes rPin).ops =
+    (handle (Gen.chain false) Gen.routes rPin).status = 200 ∧
+    (handle (Gen.chain false) Gen.routes rPin).ops =
       [⟨"Cluster.Pin", .pin ⟨3, .dataT, ⟨3, 3, 2, .recursive, 0, .future 9001, [(1, 2), (3, 1)], none, [4], [1, 2]⟩,
                               -1, [], none⟩ .recursive⟩] := by
   decide
 
 /-- the same request with a wrong password performs nothing; with an undecodable shard-size it is refused -/
-example : (handle Gen.chain Gen.routes { rPin with auth := .wrong }).ops = [] ∧
-    (handle Gen.chain Gen.routes { rPin with auth := .wrong }).status = 401 := by decide
-example : handle Gen.chain Gen.routes { rPin with query := rPin.query ++ [("shard-size", .invalid)] } = refuse 400 := by
+example : (handle (Gen.chain false) Gen.routes { rPin with auth := .wrong }).ops = [] ∧
+    (handle (Gen.chain false) Gen.routes { rPin with auth := .wrong }).status = 401 := by decide
+example : handle (Gen.chain false) Gen.routes { rPin with query := rPin.query ++ [("shard-size", .invalid)] } = refuse 400 := by
   decide
 
 end CV.C11
